@@ -191,4 +191,43 @@ theorem findIdx_spec (p : UInt8 → Bool) : ∀ (l : Bytes) (k : Nat),
         · simpa using hb
         · exact h2 hn y hy
 
+/-! ### HTTP/2 DATA frames -/
+
+def framesData (fs : List DataFrame) : Bytes := (fs.map (·.payload)).flatten
+
+theorem h2_fold_open (fs : List DataFrame) (hne : ∀ f ∈ fs, f.endStream = false) :
+    ∀ (st : H2Body), st.state = .open →
+      (st.bodyLen = -1 ∨ ((st.out.length + (framesData fs).length : Nat) : Int) ≤ st.bodyLen) →
+      fs.foldl h2RecvData st = { st with out := st.out ++ framesData fs } := by
+  induction fs with
+  | nil => intro st _ _; simp [framesData]
+  | cons f tl ih =>
+    intro st hopen hb
+    have hf : f.endStream = false := hne f (by simp)
+    have hdata : framesData (f :: tl) = f.payload ++ framesData tl := by simp [framesData]
+    have hstep : h2RecvData st f = { st with out := st.out ++ f.payload } := by
+      unfold h2RecvData
+      have h1 : ¬ (st.state ≠ .open) := by simp [hopen]
+      have h2 : ¬ (st.bodyLen ≥ 0 ∧ st.bodyLen < ((st.out.length + f.payload.length : Nat) : Int)) := by
+        rcases hb with hb | hb
+        · omega
+        · rw [hdata, List.length_append] at hb
+          push_cast at hb ⊢
+          omega
+      simp only [h1, h2, hf, ↓reduceIte, Bool.false_eq_true]
+    simp only [List.foldl_cons, hstep]
+    have hb' : ({ st with out := st.out ++ f.payload } : H2Body).bodyLen = -1 ∨
+        (((({ st with out := st.out ++ f.payload } : H2Body).out.length + (framesData tl).length : Nat)) : Int)
+          ≤ ({ st with out := st.out ++ f.payload } : H2Body).bodyLen := by
+      rcases hb with hb | hb
+      · left; exact hb
+      · right
+        rw [hdata] at hb
+        simp only [List.length_append] at hb ⊢
+        push_cast at hb ⊢
+        omega
+    have := ih (fun x hx => hne x (by simp [hx])) { st with out := st.out ++ f.payload } hopen hb'
+    rw [this]
+    simp [hdata, List.append_assoc]
+
 end LtVerif
